@@ -91,7 +91,12 @@ class Result:
     def fail(self, kind, input_, expected, observed, clause, **kw):
         """kind: 'spec' (the property's own predicate fails on what the implementation did:
         a concrete failing input) or 'corr' (model and implementation differ)."""
-        if len(self.failures) < 200:
+        # the cap is per kind: a broken correspondence that shows on every input must not crowd out the concrete
+        # failing inputs of the property (kind 'spec') that are found later in the same run
+        self._nkind = getattr(self, "_nkind", collections.Counter())
+        key = (kind, kw.get("finding"))     # ... nor must the reproductions of an open finding
+        self._nkind[key] += 1
+        if self._nkind[key] <= 200:
             self.failures.append(dict(kind=kind, input=input_, expected=expected, observed=observed, clause=clause, **kw))
         else:
             self.extra["failures_truncated"] = True
@@ -109,6 +114,39 @@ class Result:
             exhaustive=self.exhaustive,
             extra=self.extra,
         )
+
+
+class Parts:
+    """Run the independent parts of a harness one after the other.  A part that aborts (an exception the
+    harness, written against the unchanged tree, does not expect) must not throw away the concrete failing
+    inputs the other parts found: the abort is kept, the remaining parts still run, and `finish()`
+      * re-raises the first abort when no part recorded a failing input of the property (check.py then
+        decides between machinery error and broken correspondence exactly as before), or
+      * records every abort as a broken correspondence beside the failing inputs."""
+
+    def __init__(self, res):
+        self.res = res
+        self.aborted = []
+
+    def run(self, name, fn, *a, **kw):
+        import traceback
+        try:
+            return fn(*a, **kw)
+        except DriverError:
+            raise
+        except Exception as e:  # noqa: BLE001
+            self.aborted.append((name, e, traceback.format_exc()))
+            return None
+
+    def finish(self):
+        if not self.aborted:
+            return
+        if not any(f["kind"] == "spec" and not f.get("finding") for f in self.res.failures):
+            raise self.aborted[0][1]
+        for name, e, tb in self.aborted:
+            self.res.fail("corr", dict(part=name), "the part runs to completion (as on the unchanged tree)",
+                          dict(raised=f"{type(e).__name__}: {e}", traceback_tail=tb.strip().splitlines()[-6:]),
+                          "correspondence broken: a part of the harness aborted on this tree")
 
 
 def load_corpus(prop):
